@@ -1,7 +1,7 @@
 SPECIFICATION Spec
 CONSTANTS
   Depth = 2
-  LongInput = FALSE
-  Wide = TRUE
+  LongInput = TRUE
+  Wide = FALSE
 INVARIANTS Agree EmitInv
 CHECK_DEADLOCK FALSE
